@@ -173,7 +173,11 @@ theorem C02_layout : Gen.hdrLayoutEnc = rfcHeaderLayout ∧ Gen.hdrLayoutDec = r
   decide
 
 theorem C02_gen : Gen.rfc868offset = rfc868 ∧ Gen.rfc2030offset = rfc2030 ∧ Gen.HeaderLength = 20 ∧
-    Gen.Vbit = 128 ∧ Gen.typeIds.map (·.2) = List.range 19 := by decide
+    Gen.Vbit = 128 ∧ Gen.typeIds.map (·.2) = List.range 19 ∧
+    -- lengths are functions of the tree (`Len`, `C02_length`): the value types carry no remembered size
+    -- (AVP.Length is the one cached number; C01-b / C02-e: it is not what is written)
+    Gen.groupedStructFields = ["AVP []*AVP"] ∧
+    Gen.avpStructFields = ["Code uint32", "Flags uint8", "Length int", "VendorID uint32", "Data datatype.Type"] := by decide
 
 /-- `DecodeHeader (Header.Serialize h) = h` for every in-range header -/
 theorem C02_header_roundtrip (h : Header) (hv : h.version < 256) (hl : h.len < 16777216) (hf : h.flags < 256)
